@@ -7,6 +7,7 @@ import (
 	"flag"
 	"fmt"
 	"os"
+	"sync/atomic"
 	"time"
 
 	"github.com/gopacket/gopacket"
@@ -155,7 +156,30 @@ func (h *harness) run(ops []asmc.Op) {
 	}
 }
 
+var progress atomic.Int64
+
+// watchdog: a scenario of a few dozen operations that does not finish in 15 s is a hang of the library
+func watchdog(tr *vh.Trace) {
+	last, stuck := int64(-1), 0
+	for {
+		time.Sleep(1 * time.Second)
+		cur := progress.Load()
+		if cur == last {
+			stuck++
+		} else {
+			last, stuck = cur, 0
+		}
+		if stuck >= 15 && cur > 0 {
+			tr.Emit(vh.M{"op": "hang", "sc": int(cur)})
+			tr.Close()
+			fmt.Printf("{\"scenarios\":%d,\"events\":%d,\"hang\":true}\n", cur, tr.N)
+			os.Exit(3)
+		}
+	}
+}
+
 func runScenario(tr *vh.Trace, sc int, ops []asmc.Op, cfg asmc.Cfg, units int) {
+	progress.Store(int64(sc))
 	h := &harness{tr: tr, sc: sc, cfg: cfg, units: units, content: map[[2]int]*asmc.Content{}}
 	msg, site, p := vh.Guard(func() { h.run(ops) })
 	if p {
@@ -175,6 +199,7 @@ func main() {
 	variants := flag.Int("variants", 2, "configurations per exported behaviour")
 	flag.Parse()
 	tr := vh.NewTrace(*out)
+	go watchdog(tr)
 	sc := 0
 	if *in != "" {
 		f, err := os.Open(*in)
